@@ -52,6 +52,21 @@ def _cases(rng, tier):
         h2 = gen.ngon(lat - 0.4 * R, lng + 0.4 * R / math.cos(lat), 0.07 * R, 4, None)
         loops = [[(a, gen.norm_lng(b)) for a, b in lp] for lp in (outer, h1, h2)]
         out.append((loops, lat, lng, R, rng.choice([3, 4]), "two-holes"))
+    # holes that nearly wall off part of the interior: a C-shaped hole (square ring with a slit narrower than a cell)
+    # around a pocket that belongs to the polygon; the pocket is connected to the rest only through the slit
+    for k in range(4 if tier == "quick" else 40):
+        lat, lng = rng.uniform(-1.1, 1.1), rng.uniform(-3.0, 3.0)
+        res = rng.choice([5, 7, 9, 11])
+        u = 1.8 * EDGE[res]                       # about one cell spacing
+        cl = math.cos(lat)
+        P = lambda x, y: (lat + y * u, gen.norm_lng(lng + x * u / cl))
+        A, B, sl = 7.0, 3.5, rng.choice([0.02, 0.2, 0.6])
+        side = k % 4
+        ring = [(-A, -A), (A, -A), (A, -sl), (B, -sl), (B, -B), (-B, -B), (-B, B), (B, B), (B, sl), (A, sl), (A, A), (-A, A)]
+        rot = {0: lambda x, y: (x, y), 1: lambda x, y: (-y, x), 2: lambda x, y: (-x, -y), 3: lambda x, y: (y, -x)}[side]
+        hole = [P(*rot(x, y)) for x, y in ring]
+        outer = [P(-10, -10), P(10, -10), P(10, 10), P(-10, 10)]
+        out.append(([outer, hole], lat, lng, 10.5 * u, res, "pocket-hole"))
     # very large / very wide polygons (continental bands, more than a hemisphere of longitude, both sides of the
     # prime meridian, across the antimeridian): candidates are ALL cells of a coarse resolution
     for k in range(35 if tier == "quick" else 210):
@@ -124,6 +139,7 @@ def evaluate(ctx, rng, tier, focus, budget, broken):
     viol_ = []
     cases = _cases(rng, tier)
     stats = {}
+    skipped = {}
     ncells = 0
     nops = 0
     for (loops, lat, lng, radius, res, kind) in cases:
@@ -133,6 +149,7 @@ def evaluate(ctx, rng, tier, focus, budget, broken):
         else:
             cand = candidates(ctx, lat, lng, radius, res, None)
         if cand is None:
+            skipped[kind] = skipped.get(kind, 0) + 1
             continue
         cl = ctx.c([f"c2ll {gen.hx(h)}" for h in cand], tag="centres")
         floops, fix = pu.frame(loops)
@@ -178,7 +195,7 @@ def evaluate(ctx, rng, tier, focus, budget, broken):
             break
     return {"evaluations": nops, "violations": viol_[:20],
             "distinct": [f"{k}:{i}" for k, n in stats.items() for i in range(n)],
-            "coverage": {"polygons": sum(stats.values()), "by_kind": stats, "cells_expected_inside": ncells},
+            "coverage": {"polygons": sum(stats.values()), "by_kind": stats, "skipped_no_candidate_set": skipped, "cells_expected_inside": ncells},
             "samples": [{"op": "polyfill <res> 0 <polygon>", "note": "see coverage"}]}
 
 
